@@ -206,8 +206,8 @@ def const_value(model, fi, e, depth=0):
     def plain(x, d=0):
         if d > 6:
             return False
-        if isinstance(x, (str, bytes, int, float, bool, type(None))):
-            return True
+        if isinstance(x, (str, bytes, int, float, bool, type(None), type, ClassRef)):
+            return True   # (types and node classes are part of the program, not of its input)
         if isinstance(x, (list, tuple, set, frozenset)):
             return all(plain(y, d + 1) for y in x)
         if isinstance(x, dict):
